@@ -269,10 +269,19 @@ def paren_unwrap_sites(chk: Check) -> list:
             tree = ast.parse(open(f, encoding="utf-8").read())
         except Exception:  # noqa
             continue
+        # TRANSFORMS-style dict entries `exp.X: lambda …`: name the lambda after its key
+        lam_names = {}
+        for dn in ast.walk(tree):
+            if isinstance(dn, ast.Dict):
+                for k, v in zip(dn.keys, dn.values):
+                    if k is not None:
+                        for sub in ast.walk(v):
+                            if isinstance(sub, ast.Lambda):
+                                lam_names.setdefault(id(sub), "<lambda " + ast.unparse(k) + ">")
         for fn in ast.walk(tree):
             if not isinstance(fn, (ast.FunctionDef, ast.Lambda)):
                 continue
-            fname = getattr(fn, "name", "<lambda>")
+            fname = getattr(fn, "name", None) or lam_names.get(id(fn), "<lambda>")
             for n in ast.walk(fn):
                 if not isinstance(n, (ast.IfExp, ast.If)):
                     continue
